@@ -312,6 +312,295 @@ def cell_doc(cell):
     return cov_doc('<rect x="%d" y="%d" width="80" height="80" fill="#ffffff"/>' % cell, [])
 
 
+# ------------------------------------------------------------------------------------------------
+# EXACT scenes: pixel-aligned documents whose expected alpha is computed here from the SVG rules of the SOURCE document
+# (never from the parsed tree): rects and compound rect paths on an integer grid, integer translations, clip-rule given at
+# every level and in every spelling, `use` children (target shape with its own transform) inside clip paths, clip-path on
+# clipPath children and on the clipPath, objectBoundingBox units, masks (white / black content, luminance / alpha,
+# both units, masks on masks, invalid linked masks), author ids that look like generated ones, shared definitions.
+# Every pixel must be exactly 0 or 255 as predicted.
+# ------------------------------------------------------------------------------------------------
+EX = 24
+ID_POOL = ['clipPath1', 'clipPath2', 'clipPath3', 'mask1', 'mask2', 'filter1', 'pattern1', 'linearGradient1', 'ca', 'cb', 'cc', 'cd', 'ma', 'mb', 'mc', 'x1', 'x2', 'x3']
+
+
+class Geo:
+    """rect, or ring = outer rect with an inner rect sub-path (same or opposite direction)"""
+
+    def __init__(self, x, y, w, h, hole=None, same_dir=True):
+        self.x, self.y, self.w, self.h, self.hole, self.same = x, y, w, h, hole, same_dir
+
+    def inside(self, px, py, rule):
+        if not (self.x <= px < self.x + self.w and self.y <= py < self.y + self.h):
+            return False
+        if self.hole:
+            hx, hy, hw, hh = self.hole
+            if hx <= px < hx + hw and hy <= py < hy + hh:
+                return rule == 'nonzero' and self.same
+        return True
+
+    def xml(self, extra=''):
+        if not self.hole:
+            return '<rect x="%d" y="%d" width="%d" height="%d" shape-rendering="crispEdges"%s/>' % (self.x, self.y, self.w, self.h, extra)
+        hx, hy, hw, hh = self.hole
+        outer = 'M %d %d h %d v %d h %d Z' % (self.x, self.y, self.w, self.h, -self.w)
+        inner = ('M %d %d h %d v %d h %d Z' % (hx, hy, hw, hh, -hw)) if self.same else ('M %d %d v %d h %d v %d Z' % (hx, hy, hh, hw, -hh))
+        return '<path d="%s %s" shape-rendering="crispEdges"%s/>' % (outer, inner, extra)
+
+
+def rule_attr(place, rule, sel, css):
+    """spelling of clip-rule at one level: attribute, style attribute, or a CSS rule for the element's id"""
+    if rule is None:
+        return ''
+    if place == 'attr':
+        return ' clip-rule="%s"' % rule
+    if place == 'style':
+        return ' style="clip-rule:%s"' % rule
+    css.append('#%s{clip-rule:%s}' % (sel, rule))
+    return ''
+
+
+def ex_geo(rng, x0, y0, x1, y1):
+    w, h = 3 + rng.below(max(1, x1 - x0 - 3)), 3 + rng.below(max(1, y1 - y0 - 3))
+    x, y = x0 + rng.below(max(1, x1 - x0 - w + 1)), y0 + rng.below(max(1, y1 - y0 - h + 1))
+    if w >= 3 and h >= 3 and rng.below(2):
+        hw, hh = 1 + rng.below(w - 2), 1 + rng.below(h - 2)
+        return Geo(x, y, w, h, (x + 1 + rng.below(w - hw - 1), y + 1 + rng.below(h - hh - 1), hw, hh), rng.below(3) != 0)
+    return Geo(x, y, w, h)
+
+
+class ExScene:
+    def __init__(self, rng):
+        self.rng = rng
+        self.ids = ['n%d' % i for i in range(40)] + list(ID_POOL)      # the ids that look like generated ones are handed out first
+        tail = self.ids[40:]
+        rng.shuffle(tail)
+        self.ids[40:] = tail
+        self.css = []
+        self.defs = []        # xml of definitions in document order
+        self.shapes = []      # xml of `use` targets
+        self.tags = set()
+
+    def new_id(self):
+        return self.ids.pop()
+
+    # ---------------------------------------------------------------- clip paths
+    def make_clip(self, depth, allow_obb, force_obb=None, force_id=None):
+        rng = self.rng
+        c = dict(id=force_id or self.new_id(), obb=(allow_obb and rng.below(3) == 0) if force_obb is None else force_obb, ts=(0, 0), kids=[], nested=None, rule=None, grule=None)
+        if not c['obb'] and rng.below(3) == 0:
+            c['ts'] = (rng.below(5) - 2, rng.below(5) - 2)
+        if rng.below(3) == 0:
+            c['rule'] = rng.choice(['evenodd', 'nonzero'])
+        if rng.below(4) == 0:
+            c['grule'] = rng.choice(['evenodd', 'nonzero'])
+        kids_xml = ''
+        for _ in range(1 + rng.below(2)):
+            k = dict(rule=None, use=rng.below(3) == 0, urule=None, kt=(0, 0), own=None)
+            if c['obb']:
+                # fractions of the box in quarters; the user boxes are multiples of 4
+                q = [rng.below(3), rng.below(3)]
+                k['geo_q'] = (q[0], q[1], 1 + rng.below(4 - q[0]), 1 + rng.below(4 - q[1]))
+                k['use'] = False
+            else:
+                k['geo'] = ex_geo(rng, 2, 2, EX - 2, EX - 2)
+            if rng.below(3) == 0:
+                k['rule'] = rng.choice(['evenodd', 'nonzero'])
+            if not c['obb'] and rng.below(3) == 0:
+                k['kt'] = (rng.below(5) - 2, rng.below(5) - 2)
+            if depth < 2 and not c['obb'] and rng.below(4) == 0:
+                k['own'] = self.make_clip(depth + 2, False)
+                self.tags.add('child-clip')
+                if c['kids']:
+                    self.tags.add('F16-child-clip-after-sibling')
+            own_attr = ' clip-path="url(#%s)"' % k['own']['id'] if k['own'] else ''
+            kid_id = self.new_id()
+            if c['obb']:
+                g = k['geo_q']
+                kids_xml += '<rect id="%s" x="%s" y="%s" width="%s" height="%s"%s/>' % (kid_id, g[0] / 4.0, g[1] / 4.0, g[2] / 4.0, g[3] / 4.0,
+                                                                                       rule_attr(rng.choice(['attr', 'style', 'css']), k['rule'], kid_id, self.css))
+            elif k['use']:
+                # the referenced shape carries the transform (usvg turns this into a nested group); the `use` carries clip-rule / clip-path
+                self.tags.add('use-child')
+                tid = self.new_id()
+                self.shapes.append(k['geo'].xml(' id="%s"%s%s' % (tid, ' transform="translate(%d %d)"' % k['kt'] if k['kt'] != (0, 0) else '',
+                                                                   rule_attr(rng.choice(['attr', 'style', 'css']), k['rule'], tid, self.css))))
+                if rng.below(2):
+                    k['urule'] = rng.choice(['evenodd', 'nonzero'])
+                kids_xml += '<use id="%s" xlink:href="#%s"%s%s/>' % (kid_id, tid, rule_attr(rng.choice(['attr', 'style', 'css']), k['urule'], kid_id, self.css), own_attr)
+            else:
+                kids_xml += k['geo'].xml(' id="%s"%s%s%s' % (kid_id, ' transform="translate(%d %d)"' % k['kt'] if k['kt'] != (0, 0) else '',
+                                                           rule_attr(rng.choice(['attr', 'style', 'css']), k['rule'], kid_id, self.css), own_attr))
+            c['kids'].append(k)
+        if depth < 2 and rng.below(4) == 0:
+            c['nested'] = self.make_clip(depth + 1, allow_obb)
+            self.tags.add('nested-clip')
+        xml = '<clipPath id="%s"%s%s%s%s>%s</clipPath>' % (
+            c['id'], ' clipPathUnits="objectBoundingBox"' if c['obb'] else '', ' transform="translate(%d %d)"' % c['ts'] if c['ts'] != (0, 0) else '',
+            rule_attr(rng.choice(['attr', 'style', 'css']), c['rule'], c['id'], self.css), ' clip-path="url(#%s)"' % c['nested']['id'] if c['nested'] else '', kids_xml)
+        if c['grule']:
+            xml = '<g clip-rule="%s">%s</g>' % (c['grule'], xml)
+        self.defs.append(xml)
+        if c['obb']:
+            self.tags.add('obb-clip')
+        return c
+
+    def clip_at(self, c, bbox, ux, uy):
+        """is the point (ux, uy) of the referencing element's user space inside the clip path?"""
+        if c['nested'] and not self.clip_at(c['nested'], bbox, ux, uy):
+            return False
+        cx, cy = ux - c['ts'][0], uy - c['ts'][1]
+        for k in c['kids']:
+            rule = k['rule'] or k['urule'] or c['rule'] or c['grule'] or 'nonzero'
+            if c['obb']:
+                g = k['geo_q']
+                bx, by, bw, bh = bbox
+                inside = bx + g[0] * bw // 4 <= cx < bx + (g[0] + g[2]) * bw // 4 and by + g[1] * bh // 4 <= cy < by + (g[1] + g[3]) * bh // 4
+            else:
+                inside = k['geo'].inside(cx - k['kt'][0], cy - k['kt'][1], rule)
+            if inside and k['own']:
+                # clip-path on a child: in the child's user space; for a `use` child the transform sits on the target, not on the use
+                ox, oy = (cx, cy) if k['use'] else (cx - k['kt'][0], cy - k['kt'][1])
+                inside = self.clip_at(k['own'], None, ox, oy)
+            if inside:
+                return True
+        return False
+
+    # ---------------------------------------------------------------- masks
+    def make_mask(self, depth, force_obb=None, force_id=None):
+        rng = self.rng
+        m = dict(id=force_id or self.new_id(), obb=(rng.below(2) == 0) if force_obb is None else force_obb,
+                 cobb=(rng.below(3) == 0) if force_obb is None else force_obb, kind=rng.choice(['luminance', 'alpha', None]), kids=[], nested=None, invalid=False)
+        if m['obb']:
+            m['reg_q'] = (rng.below(2), rng.below(2), 2 + rng.below(3), 2 + rng.below(3))
+            reg = ' x="%s" y="%s" width="%s" height="%s"' % tuple(v / 4.0 for v in m['reg_q'])
+        else:
+            m['reg'] = (2 + rng.below(8), 2 + rng.below(8), 6 + rng.below(12), 6 + rng.below(12))
+            reg = ' maskUnits="userSpaceOnUse" x="%d" y="%d" width="%d" height="%d"' % m['reg']
+        kx = ''
+        for _ in range(1 + rng.below(3)):
+            col = rng.choice(['#ffffff', '#ffffff', '#000000'])
+            if m['cobb']:
+                q = (rng.below(3), rng.below(3))
+                g = (q[0], q[1], 1 + rng.below(4 - q[0]), 1 + rng.below(4 - q[1]))
+                kx += '<rect x="%s" y="%s" width="%s" height="%s" fill="%s"/>' % (g[0] / 4.0, g[1] / 4.0, g[2] / 4.0, g[3] / 4.0, col)
+            else:
+                g = (rng.below(14), rng.below(14), 3 + rng.below(14), 3 + rng.below(14))
+                kx += '<rect x="%d" y="%d" width="%d" height="%d" fill="%s" shape-rendering="crispEdges"/>' % (g + (col,))
+            m['kids'].append((g, col))
+        link = ''
+        if depth < 1 and rng.below(3) == 0:
+            if rng.below(2):
+                m['nested'] = self.make_mask(depth + 1)
+                link = m['nested']['id']
+                self.tags.add('nested-mask')
+            else:
+                # a linked mask that is not valid: the outer mask is invalid too and the element is not rendered
+                m['invalid'] = True
+                bad = self.new_id()
+                kind = rng.below(3)
+                self.tags.add('invalid-linked-mask-%d' % kind)
+                if kind == 0:
+                    self.defs.append('<mask id="%s" maskUnits="userSpaceOnUse" x="0" y="0" width="0" height="20"><rect width="24" height="24" fill="#ffffff"/></mask>' % bad)
+                elif kind == 1:
+                    self.defs.append('<mask id="%s" maskUnits="userSpaceOnUse" x="0" y="0" width="24" height="0"><rect width="24" height="24" fill="#ffffff"/></mask>' % bad)
+                else:
+                    self.defs.append('<rect id="%s" width="24" height="24" fill="#ffffff"/>' % bad)
+                link = bad
+        self.defs.append('<mask id="%s"%s%s%s%s>%s</mask>' % (m['id'], reg, ' maskContentUnits="objectBoundingBox"' if m['cobb'] else '',
+                                                            ' mask-type="%s"' % m['kind'] if m['kind'] else '', ' mask="url(#%s)"' % link if link else '', kx))
+        return m
+
+    def mask_at(self, m, bbox, ux, uy):
+        if m['invalid']:
+            return False
+        if m['nested'] and not self.mask_at(m['nested'], bbox, ux, uy):
+            return False
+        bx, by, bw, bh = bbox
+        if m['obb']:
+            q = m['reg_q']
+            rx, ry, rw, rh = bx + q[0] * bw // 4, by + q[1] * bh // 4, q[2] * bw // 4, q[3] * bh // 4
+        else:
+            rx, ry, rw, rh = m['reg']
+        if not (rx <= ux < rx + rw and ry <= uy < ry + rh):
+            return False
+        val = False
+        for g, col in m['kids']:
+            if m['cobb']:
+                gx, gy, gw, gh = bx + g[0] * bw // 4, by + g[1] * bh // 4, g[2] * bw // 4, g[3] * bh // 4
+            else:
+                gx, gy, gw, gh = g
+            if gx <= ux < gx + gw and gy <= uy < gy + gh:
+                val = (col == '#ffffff') or (m['kind'] == 'alpha')      # black: luminance 0, but alpha 1
+        return val
+
+
+def gen_exact_scene(rng):
+    sc = ExScene(rng)
+    forced = None
+    if rng.below(5) == 0:
+        # an objectBoundingBox definition used by two elements (its second user gets a GENERATED id such as clipPath1 / mask1), followed by
+        # the first use of an author definition that carries exactly that id
+        sc.tags.add('author-id-equals-generated-id')
+        n = rng.choice(['1', '1', '2'])
+        for lst in (sc.ids,):
+            for nm in ('clipPath' + n, 'mask' + n):
+                if nm in lst:
+                    lst.remove(nm)
+        if rng.below(3):
+            a, b = sc.make_clip(0, True, force_obb=True), sc.make_clip(0, False, force_obb=False, force_id='clipPath' + n)
+            clips, masks = [a, b], []
+            forced = [(a, None)] * (2 if n == '1' else 3) + [(b, None)]
+        else:
+            a, b = sc.make_mask(0, force_obb=True), sc.make_mask(0, force_obb=False, force_id='mask' + n)
+            clips, masks = [], [a, b]
+            forced = [(None, a)] * (2 if n == '1' else 3) + [(None, b)]
+    else:
+        clips = [sc.make_clip(0, True) for _ in range(1 + rng.below(2))]
+        masks = [sc.make_mask(0) for _ in range(rng.below(2))]
+    users = []
+    body = ''
+    for u in range(len(forced) if forced else 2 + rng.below(3)):
+        w, h = 4 * (1 + rng.below(4)), 4 * (1 + rng.below(4))
+        x, y = rng.below(EX - w - 3) + 1, rng.below(EX - h - 3) + 1
+        t = (rng.below(3), rng.below(3)) if rng.below(3) == 0 else (0, 0)
+        c = rng.choice(clips) if (clips and rng.below(4)) else None
+        m = rng.choice(masks) if (masks and rng.below(2)) else None
+        if forced:
+            c, m = forced[u]
+        attr = (' clip-path="url(#%s)"' % c['id'] if c else '') + (' mask="url(#%s)"' % m['id'] if m else '')
+        col = rng.choice(['#ff0000', '#00ff00', '#0000ff', '#808080'])
+        rect = '<rect x="%d" y="%d" width="%d" height="%d" fill="%s" shape-rendering="crispEdges"%%s/>' % (x, y, w, h, col)
+        if rng.below(2):
+            body += '<g transform="translate(%d %d)"%s>%s</g>' % (t[0], t[1], attr, rect % '')
+        else:
+            body += rect % ((' transform="translate(%d %d)"' % t if t != (0, 0) else '') + attr)
+        users.append((x, y, w, h, t, c, m))
+    ids_like_generated = [i for i in ID_POOL[:8] if i not in sc.ids]
+    if ids_like_generated:
+        sc.tags.add('generated-looking-ids')
+    if len([1 for u in users if u[5] is not None and u[5]['obb']]) >= 2 or len([1 for u in users if u[6] is not None]) >= 2:
+        sc.tags.add('shared-definition')
+    style = '<style>%s</style>' % "".join(sc.css) if sc.css else ''
+    doc = '<svg %s width="%d" height="%d">%s<defs>%s%s</defs>%s</svg>' % (NS, EX, EX, style, "".join(sc.shapes), "".join(sc.defs), body)
+    exp = []
+    for py in range(EX):
+        for px in range(EX):
+            vis = False
+            for (x, y, w, h, t, c, m) in users:
+                ux, uy = px - t[0], py - t[1]
+                if not (x <= ux < x + w and y <= uy < y + h):
+                    continue
+                if c and not sc.clip_at(c, (x, y, w, h), ux, uy):
+                    continue
+                if m and not sc.mask_at(m, (x, y, w, h), ux, uy):
+                    continue
+                vis = True
+                break
+            exp.append(255 if vis else 0)
+    return dict(doc=doc, expected=exp, tags=sorted(sc.tags))
+
+
 def gen_case(rng, mode):
     """mode: clip | mask | opacity"""
     defs = []
@@ -601,6 +890,41 @@ def run(ctx):
         evals.append(('k2_clip', "From RV Require Import Model.Corr.\nLocal Open Scope Q_scope.\nEval vm_compute in [%s].\n" % ";\n".join(items), IMPORTS))
     ctx.cov['clip_algebra_scenes_with_child_clip_after_sibling'] = n_f16
 
+    # ============================================================== exact scenes (expected alpha from the source document's SVG semantics)
+    scenes = [gen_exact_scene(rng) for _ in range(500 if quick else 6000)]
+    xouts = ctx.rvh_batch(binp, 'c15-pix', ["-\t%s\t%d\t%d" % (sc['doc'], EX, EX) for sc in scenes])
+    exact_bad = []
+    tag_hist = {}
+    for sc, o in zip(scenes, xouts):
+        r = P.jload(o)
+        for t in sc['tags']:
+            tag_hist[t] = tag_hist.get(t, 0) + 1
+        if 'a' not in r:
+            if 'error' in r:
+                exact_bad.append((sc, "exact scene failed to parse / render: %s" % str(r)[:160], None))
+            continue
+        ctx.note_case("exact|" + sc['doc'], nontrivial=any(sc['expected']) and not all(sc['expected']))
+        diff = [i for i, (a, e) in enumerate(zip(r['a'], sc['expected'])) if a != e]
+        if diff:
+            i = diff[0]
+            sc['only_removed'] = all(r['a'][j] == 0 for j in diff)
+            exact_bad.append((sc, "pixel-aligned scene [%s]: %d of %d pixels differ from the alpha that the SVG clipping / masking rules give for the source "
+                                  "document, first pixel (%d,%d): rendered %d, expected %d" % ("+".join(sc['tags']), len(diff), EX * EX, i % EX, i // EX, r['a'][i], sc['expected'][i]), i))
+    ctx.cov['exact_scenes'] = dict(n=len(scenes), features=tag_hist)
+    exact_bad.sort(key=lambda b: len(b[0]['doc']))
+    shown = 0
+    f16_exact = 0
+    for sc, text, i in exact_bad:
+        rep = dict(op='c15-exact', doc=sc['doc'], expected=sc['expected'], pixel=i, features=sc['tags'])
+        if i is not None and 'F16-child-clip-after-sibling' in sc['tags'] and sc.get('only_removed'):
+            # KNOWN class clip-child-overlap-xor: a clipPath child with its own clip-path follows a sibling and paint is only REMOVED
+            f16_exact += 1
+            ctx.known_or_violation('clip-child-overlap-xor', text, rep)
+        elif shown < 3:
+            shown += 1
+            ctx.violation(text, rep)
+    ctx.cov['exact_scenes']['known_F16_hits'] = f16_exact
+
     results = P.run_evals(ctx, evals) if evals else {}
     n_corr = 0
     for name, (rc, out) in sorted(results.items()):
@@ -720,6 +1044,13 @@ def replay(ctx, path):
         w = rp['wrapper']
         print("file:", rp['doc'], "wrapper:", w['defs'], w['attr'])
         print("measured:", ctx.rvh_batch(binp, 'c15-corpus', ["-\t%s\t%s\t%s\t%s\t%s" % (rp['doc'], w['defs'], w['attr'], w['outside'], w['inside'])])[0])
+    elif rp.get('op') == 'c15-exact':
+        print("document:", rp['doc'])
+        out = P.jload(ctx.rvh_batch(binp, 'c15-pix', ["-\t%s\t%d\t%d" % (rp['doc'], EX, EX)])[0])
+        a = out.get('a', [])
+        print("rendered / expected alpha (# = 255, . = 0, X = rendered 255 but expected 0, o = rendered 0 but expected 255):")
+        for y in range(EX):
+            print("".join(('#' if e else '.') if (v == e) else ('X' if v else 'o') for v, e in zip(a[y * EX:(y + 1) * EX], rp['expected'][y * EX:(y + 1) * EX])))
     elif rp.get('op') == 'c15-pix':
         print("document:", rp['doc'])
         out = P.jload(ctx.rvh_batch(binp, 'c15-pix', ["-\t%s\t%d\t%d" % (rp['doc'], 100 if 'width="100"' in rp['doc'] else N, 100 if 'width="100"' in rp['doc'] else N)])[0])
